@@ -294,7 +294,7 @@ pub fn run_case_k<'a, K: HashKind>(
 
 impl<'a, K: HashKind> Case<'a, K> {
     fn quiescent(&mut self, what: &str) {
-        if self.p.decode && !self.sut.dead && !self.rep.diverged {
+        if self.p.decode && !self.sut.dead && (!self.rep.diverged || std::env::var("NV_FORCE_DECODE").is_ok()) {
             decode_check::<K>(&self.sut, self.rep, what);
         }
         if let Some(h) = self.hook.as_mut() {
